@@ -15,26 +15,7 @@ import t2tie
 from common import Check, load_known, rng, tier
 
 
-def has_where_in(s):
-    def q_(q):
-        if q[0] == "select":
-            return q[4] is not None or any(q_(rr[1]) for rr in q[2] if rr[0] == "derived")
-        if q[0] == "union":
-            return q_(q[1]) or q_(q[2])
-        return q_(q[2]) or q_(q[3])
-    qq = s[3] if s[0] == "insert" else s[2] if s[0] in ("ctas", "view") else s[1] if s[0] == "query" else None
-    return qq is not None and q_(qq)
-
-
-def has_window(s):
-    return "'win'" in repr(s)
-
-
-CLASSES = [
-    ("K-C09-1", lambda d, s: d == "clickhouse" and has_where_in(s)),
-    ("K-C09-2", lambda d, s: d == "exasol" and s[0] == "view"),
-    ("K-C09-6", lambda d, s: d == "sqlite" and has_window(s)),
-]
+from sqltie import DIALECT_CLASSES as CLASSES, has_where_in, has_window  # noqa: E402,F401
 
 
 def main() -> int:
@@ -46,9 +27,10 @@ def main() -> int:
     quick = tier() == "quick"
     r = rng("c09")
     spec_failures, disagreements, known_hits = [], [], {}
-    n = 90 if quick else 1500
-    stmts = [astgen.gen_stmt(r, r.choice([0, 1, 2])) for _ in range(n)]
+    n = 60 if quick else 1500
+    stmts = astgen.gen_batch(r, n, (0, 1, 2), shapes=45 if quick else None)
     dialects = sqltie.installed_dialects()
+    spec = sqltie.spec_strings(stmts)
     o = astgen.Opts(fun4=True)
     recs, meta = [], []
     for d in dialects + ["non-validating"]:
@@ -68,6 +50,11 @@ def main() -> int:
         if not fluff:
             continue
         ref = Counter(fluff.values()).most_common(1)[0][0]
+        ck.count()
+        if ref != spec[i]:
+            # the answer most dialects agree on must also be the right one (Ast/Spec.v)
+            spec_failures.append({"suite": "majority-vs-specification", "sql": astgen.to_sql(s, o), "most_dialects": ref, "spec": spec[i],
+                                  "agreeing_dialects": sorted(k for k, v in fluff.items() if v == ref)[:8]})
         if len(fluff) > 1 and ref.split("#")[0] != "R=;W=":
             ck.nontriv(astgen.to_sql(s))
         for d, x in accepted.items():
